@@ -231,6 +231,22 @@ def yaml_rows():
             es = list(ok)
             es[k] = es[k].replace("int n +implied(size(x))", txt)
             gen.append(("generic-implied:%s:entry%d" % (w, k + 1), gdecl(es)))
+    # validity of a declaration does not depend on the declarations around it: every valid declaration A beside
+    # every invalid declaration B, in both orders, is an invalid library; A beside another valid one is valid
+    A = {"tmpl2": {"decl": "template<typename T> void ta(T a)", "cxx_template": [{"instantiation": "<int>"}, {"instantiation": "<double>"}]},
+         "tmpl1": {"decl": "template<typename T> void tb(T a)", "cxx_template": [{"instantiation": "<int>"}]},
+         "generic": {"decl": "void tg(double a)", "fortran_generic": [{"decl": "(float a)"}, {"decl": "(double a)"}]},
+         "class": {"decl": "class K", "declarations": [{"decl": "K()"}, {"decl": "int m(int a = 1)"}]}}
+    B = {"uninstT": {"decl": "template<typename T> void ub(T a)"},
+         "uninstU": {"decl": "template<typename U> void uc(U a)"},
+         "unknown": {"decl": "void ud(nosuch_t a)"}}
+    for an, a in A.items():
+        for bn, b in B.items():
+            gen.append(("pair:%s:%s:ab" % (an, bn), lib(declarations=[json.loads(json.dumps(a)), json.loads(json.dumps(b))])))
+            gen.append(("pair:%s:%s:ba" % (an, bn), lib(declarations=[json.loads(json.dumps(b)), json.loads(json.dumps(a))])))
+        for an2, a2 in A.items():
+            if an < an2:
+                gen.append(("pairok:%s:%s" % (an, an2), lib(declarations=[json.loads(json.dumps(a)), json.loads(json.dumps(a2))])))
     return gen + [
         ("minimal", lib(declarations=[f])),
         ("empty-block", lib(declarations=[{"block": True, "declarations": [f]}, {"block": True}])),
